@@ -35,7 +35,8 @@ class PlannedRequest:
 
 
 class LinkModel:
-    def __init__(self, plan: List[PlannedRequest], policy: str = "late", partners: bool = True):
+    def __init__(self, plan: List[PlannedRequest], policy: str = "late", partners: bool = True, qlink10: bool = False):
+        self.qlink10 = qlink10
         self.plan = list(plan)
         self.partners = partners     # model the remote half of every kept pair (needed by C10 only; it grows the state vector)
         self.policy = policy
@@ -151,5 +152,21 @@ class LinkModel:
                 measurement_basis=ql.Basis(f("measurement_basis", p.bases[k])), directionality_flag=direction,
                 sequence_number=f("sequence_number", self.seq), purpose_id=purpose, remote_node_id=p.remote,
                 goodness=f("goodness", 0), bell_state=ql.BellState(p.bells[k]))
+        if self.qlink10:
+            # the same response as a qlink-interface 1.0 object (what an external link layer hands over); the Bell state is the
+            # same *named* state, in that interface's own enum
+            import qlink_interface as q1
+            bell = q1.BellState[ql.BellState(p.bells[k]).name]
+            if gives_qubit:
+                resp = q1.ResCreateAndKeep(create_id=resp.create_id, directionality_flag=resp.directionality_flag,
+                                           sequence_number=resp.sequence_number, purpose_id=resp.purpose_id,
+                                           remote_node_id=resp.remote_node_id, goodness=resp.goodness, bell_state=bell,
+                                           logical_qubit_id=resp.logical_qubit_id, time_of_goodness=resp.goodness_time)
+            else:
+                resp = q1.ResMeasureDirectly(create_id=resp.create_id, directionality_flag=resp.directionality_flag,
+                                             sequence_number=resp.sequence_number, purpose_id=resp.purpose_id,
+                                             remote_node_id=resp.remote_node_id, goodness=resp.goodness, bell_state=bell,
+                                             measurement_outcome=resp.measurement_outcome,
+                                             measurement_basis=q1.MeasurementBasis(resp.measurement_basis.value))
         self.deliveries.append((p.tag, k, resp))
         ex._handle_epr_response(resp)
